@@ -17,7 +17,7 @@ type idxGen struct {
 
 func newIdxGen(r *rng.Rng, far int, allowExtremes bool) *idxGen {
 	g := &idxGen{far: far}
-	lim := math.MaxInt32 - far - 4096
+	lim := math.MaxInt32 - far - 60000
 	switch r.Pick(5, 3, 1, 1) {
 	case 0:
 		g.centre = r.Range(-2000, 2000)
